@@ -26,6 +26,8 @@ MCKeys     == {TAX, TAXP, TAS}
 (* content types as written: literal and otherwise spelled, extra / reordered / differing parameters, q = 0 at
    both ends, a positive q inside *)
 MCCTypes   == {Lit(TAX), Lit(TAXP), Alt(TAXP), Alt(TAXPR), Lit(TAXP2), Lit(TBY), Wq(TAXP, 0, 1), AnyType, NoType}
+(* the depth-4 instance keeps the old size: the literal and the merely matching spelling of the parameterised type, q = 0 *)
+MCCTypes4  == {Lit(TAX), Lit(TAXP), Alt(TAXP), Wq(TAXP, 0, 1), AnyType, NoType}
 AllCTypes  == MCCTypes \cup {Alt(TAX), Lit(TAXRP), Lit(TAY), Wq(TAX, 0, 0), Wq(TAXP, 0, 0), Wq(TAXPR, 500000, 1)}
 MCDefaults == {TAX, TBY}
 MCNoRaise  == {<<Lit(TAX), TAX>>}
